@@ -40,7 +40,7 @@ Customs == <<[k |-> "none"], All2(C("float"), Filters[1])>>
 ND == Len(Defaults) * 2 * 2 * 2
 Decl(n) == LET m == n - 1 IN
     [name |-> "synthetic", cls |-> "Setting", default |-> Defaults[(m \div 8) + 1], options |-> Opts[((m \div 4) % 2) + 1],
-     enforced |-> ((m \div 2) % 2) = 1, hasCustom |-> (m % 2) = 1, custom |-> Customs[(m % 2) + 1], old |-> <<>>, extra |-> <<>>]
+     enforced |-> ((m \div 2) % 2) = 1, hasCustom |-> (m % 2) = 1, custom |-> Customs[(m % 2) + 1], old |-> <<>>, extra |-> <<>>, mods |-> <<>>]
 
 VARIABLE idx
 Init == idx = 1
@@ -106,6 +106,20 @@ UnenforcedOptionsAreHints ==    \* options that are not enforced do not restrict
 NoneDefaultNeedsASchema ==      \* a None default without a schema admits nothing at all (Coerce(NoneType))
     IsDecl /\ ~D.hasCustom /\ ~(D.enforced /\ Len(D.options) > 0) /\ D.default.t = "none" =>
         \A j \in 1..NU : Store(D, U(j)).r = "bad"
+
+\* ---- laws of App.getSettings' merge (EffDecl) ------------------------------------------------------------------
+Opt(v) == [kind |-> "option", v |-> v]
+Dft(v) == [kind |-> "default", v |-> v]
+ModifiersMerge ==               \* for declarations with enforced options: an added option is admitted, a Default naming it is the
+    IsDecl /\ ~D.hasCustom /\ D.enforced /\ Len(D.options) > 0 /\ D.default.t = "str" =>       \* default and is admitted as itself,
+        LET z == VStr("2R")                                                                        \* in either arrival order
+            E1 == EffDecl([D EXCEPT !.mods = <<Opt(z), Dft(z)>>])
+            E2 == EffDecl([D EXCEPT !.mods = <<Dft(z), Opt(z)>>]) IN
+        /\ E1.options = E2.options /\ Same(E1.default, E2.default)
+        /\ Same(E1.default, z) /\ DefaultAdmitted(E1)
+        /\ Store(E1, z).r = "ok" /\ Store(D, z).r = "bad"
+        /\ \A o \in 1..Len(D.options) : Store(E1, D.options[o]).r = "ok"
+NoModifiersNoChange == IsDecl => EffDecl(D) = D
 
 \* ---- Python's == on the universe is an equivalence (In and literals rest on it); evaluated once
 ASSUME \A a \in 1..NU : PyEq(U(a), U(a))
